@@ -4,10 +4,6 @@ open Datatypes
 
 module N :
  sig
-  val succ_double : coq_N -> coq_N
-
-  val double : coq_N -> coq_N
-
   val add : coq_N -> coq_N -> coq_N
 
   val sub : coq_N -> coq_N -> coq_N
@@ -23,10 +19,4 @@ module N :
   val ltb : coq_N -> coq_N -> bool
 
   val min : coq_N -> coq_N -> coq_N
-
-  val pos_div_eucl : positive -> coq_N -> coq_N * coq_N
-
-  val div_eucl : coq_N -> coq_N -> coq_N * coq_N
-
-  val modulo : coq_N -> coq_N -> coq_N
  end
